@@ -1064,6 +1064,17 @@ theorem value_in_follows_code (g : Nat) (s : Addr) (n : Nat) :
     (valueIn g s n).head? = some (.send (.base g) s precompileAcc n) ∧
     interp (envValue g s) n handlerOriginToken_sigs = some ((valueIn g s n).drop 1) := ⟨rfl, rfl⟩
 
+/-- **which tokens the refund of an outgoing bridge call mints**: `bridgeCallTransferCoins` with the regenerated guard of its
+`mintCoins.Add` (tokens that are NOT origin / converted: module-owned pairs) is the model's `bridgeCallRefundCoin`, for every kind -/
+theorem refund_mint_guard_follows_code (k : Kind) (g c : Nat) (r : Addr) (n : Nat) :
+    refundCoinWith FxVerif.Gen.C04.bridgeCallTransferCoins_mintGuard k g c r n = some (bridgeCallRefundCoin k g c r n) := by
+  cases k <;> rfl
+
+/-- … and the polarity matters: with the negation lost the refund of FX mints fresh FX instead of releasing the locked ones,
+and a module-owned token is paid out of the escrow that backs the coins in circulation -/
+example : refundCoinWith .origin .fx 0 0 (U 1) 5 = some [.mint (.base 0) (M 0) (M 0) 5, .send (.base 0) (M 0) (U 1) 5] ∧
+    (refundCoinWith .origin .moduleOwned 1 0 (U 1) 5).map (·.head?) = some (some (.send (.bridge 1 0) (M 0) (U 1) 5)) := ⟨rfl, rfl⟩
+
 /-- `OutgoingTxBatchExecuted` with the regenerated argument of its cancel call is the model's `executedWith` (the batches the
 guard selects are the ones cancelled) -/
 theorem executed_cancels_the_iterated_batch (cs : ChainSt) (g nonce : Nat) :
